@@ -16,7 +16,7 @@ FUNCTIONAL = False
 LEVEL_TEXT = ("Lean theorems about step : Stream -> Op -> Stream x Result transcribed from bitstream.py/bits.py/dtypes.py/bitarray_.py: "
               "0 <= pos <= len is preserved by every modelled operation and by every history (induction); a successful read/readlist/readto returns the interpretation of exactly bits[pos, pos+k) and advances by k; a "
               "failed read leaves the state unchanged and a short fixed-length read or truncated code is ReadError; peek/peeklist = "
-              "read/readlist with pos restored; readlist = the successive single reads; append/+= end, prepend/clear 0, length-changing "
+              "read/readlist with pos restored; readlist = the successive single reads (with one stretchy token: read as max(remaining - later fixed bits, 0) bits, whole stream consumed; two stretchy tokens / a variable token after one: Error); append/+= end, prepend/clear 0, length-changing "
               "del/setitem/replace 0, insert/overwrite just after the written bits, find/rfind/readto at the match; every new stream "
               "object starts at 0; ==/hash key/len/in/count/uint do not depend on pos. Correspondence: histories of 1-25 operations "
               "on both stream classes from every (content, pos) family, exhaustive small bit strings x positions x token kinds.")
@@ -25,7 +25,7 @@ LEVEL_NOTE = ("Trusted: Lean kernel (+propext, Classical.choice, Quot.sound); se
               "uint/int/bin/hex/bits/bytes/bool/pad/ue/se/uie/sie and integer counts; the transcription is tied to the code by the "
               "differential run only. Four genuine deviations found while building the check were fixed in /repo (known_findings.d/C06.json, status fixed).")
 TECHNIQUE = "Lean 4 proof (invariant by induction over operation histories, case analysis per operation) + history correspondence"
-NOT_YET_PROVED = ["readlist_eq_reads for lists that contain a stretchy (length-less) token: proved only for lists without one (the stretchy arithmetic max(remaining - bits_after, 0) is transcribed and corresponded, not characterised by a theorem)"]
+NOT_YET_PROVED = []
 
 STREAMS = ("ConstBitStream", "BitStream")
 VAR = ("ue", "se", "uie", "sie")
